@@ -10,7 +10,7 @@
 (*             for the helper, else terminate it (DeleteWait): the helper's clean-up        *)
 (*             terminates the workers it started; reply True                                *)
 (*   start   : worker request naming a context: lookup (StartLookup); unknown =>            *)
-(*             `continue` - no reply, socket left open; known => the client socket is        *)
+(*             `continue` - no reply (the socket is closed since 6c35f4a); known => the socket is *)
 (*             forwarded to the helper, which unpickles the worker with ITS target /         *)
 (*             args / kwargs patched in and runs the handshake (StartForward)               *)
 (*   call    : enqueue + next_result on a worker (WCall);  wait : close + wait (WWait)      *)
